@@ -30,7 +30,8 @@ const s2Addr = "10.2.2.2:9618"
 
 func s2ClientSec(cache *security.SessionCache) *security.SecurityConfig {
 	return &security.SecurityConfig{
-		AuthMethods: []security.AuthMethod{security.AuthClaimToBe}, Authentication: security.SecurityRequired,
+		// the shared policy lists a method the server does not offer before the one it does
+		AuthMethods: []security.AuthMethod{security.AuthFS, security.AuthClaimToBe}, Authentication: security.SecurityRequired,
 		CryptoMethods: []security.CryptoMethod{security.CryptoAES}, Encryption: security.SecurityRequired, Integrity: security.SecurityOptional,
 		TrustDomain: "verif.domain", Command: 5, SessionCache: cache,
 	}
@@ -70,11 +71,13 @@ func s2Case(resume bool, nClients, bound, maxExecs int, perCmd bool) *vlib.Resul
 	}
 	_ = security.GetSessionCache() // run the sync.Once outside the scheduler
 	var results, sids []string
+	var sharedSec *security.SecurityConfig
 	var ends []*sEnd
 	mk := func() []func() {
 		security.ClearSessionCache()
 		cache := security.NewSessionCache()
 		sec := s2ClientSec(cache)
+		sharedSec = sec
 		srv := s2Server(perCmd)
 		if resume {
 			// establish one session sequentially (no scheduler active yet)
@@ -167,6 +170,10 @@ func s2Case(resume bool, nClients, bound, maxExecs int, perCmd bool) *vlib.Resul
 					res.Violate("C17/S2/"+label+"/handshakes-disturb-each-other/"+k, "client %d of %d concurrent connections sharing one configuration failed although each succeeds alone: %s (schedule %v)", i, nClients, r, choices(x))
 				}
 			}
+		}
+		if fmt.Sprint(sharedSec.AuthMethods) != "[FS CLAIMTOBE]" && !seen["mutated"] {
+			seen["mutated"] = true
+			res.Violate("C17/S2/"+label+"/shared-config-mutated", "after %d concurrent connections the shared SecurityConfig's AuthMethods read %v (configured: [FS CLAIMTOBE]) (schedule %v)", nClients, sharedSec.AuthMethods, choices(x))
 		}
 		if !resume {
 			for i := range sids {
